@@ -106,6 +106,20 @@ type NetH struct {
 	Fails     []OracleFailure // failures detected while recording (C19)
 }
 
+// directHook (C20): called right after a harness operation wrote to a chain's state directly
+// (keeper call on the uncached context, not a transaction) and before the block is committed,
+// so that a twin application can be given the same writes
+var directHook func(c *tibctesting.TestChain, kind string, data map[string][]byte)
+
+// chainHook (C20): called for every chain right after the coordinator created it
+var chainHook func(c *tibctesting.TestChain)
+
+func callDirect(c *tibctesting.TestChain, kind string, data map[string][]byte) {
+	if directHook != nil {
+		directHook(c, kind, data)
+	}
+}
+
 // stores whose content a failing message must leave untouched
 var protectedStores = []string{"tibc", "nft", "mt", "NFT", "MT"}
 
@@ -175,7 +189,11 @@ func newNetH(t *testing.T, n int) *NetH {
 		c := coord.GetChain(tibctesting.GetChainID(i))
 		h.chains = append(h.chains, c)
 		h.names = append(h.names, c.ChainName)
+		if chainHook != nil {
+			chainHook(c)
+		}
 		c.App.TIBCKeeper.ClientKeeper.SetChainName(c.GetContext(), c.ChainName)
+		callDirect(c, "chainname", map[string][]byte{"name": []byte(c.ChainName)})
 		c.NextBlock()
 		coord.IncrementTime()
 	}
@@ -327,6 +345,10 @@ func (h *NetH) CreateClient(i, j int) {
 		ci.App.TIBCKeeper.ClientKeeper.RegisterRelayers(ctx, cj.ChainName, []string{ci.SenderAccount.GetAddress().String()})
 		err := ci.App.TIBCKeeper.ClientKeeper.CreateClient(ctx, cj.ChainName, cs, cons)
 		ok = err == nil
+		if ok {
+			callDirect(ci, "create", map[string][]byte{"name": []byte(cj.ChainName), "relayer": []byte(ci.SenderAccount.GetAddress().String()),
+				"client": clienttypes.MustMarshalClientState(ci.App.AppCodec(), cs), "cons": clienttypes.MustMarshalConsensusState(ci.App.AppCodec(), cons)})
+		}
 	}
 	h.commit(i)
 	nop := fmt.Sprintf("NCreate %d %d %d %d %d %d", i, j, now, height.RevisionHeight, cons.Timestamp.UnixNano(), cfg.TrustingPeriod.Nanoseconds())
@@ -377,6 +399,9 @@ func (h *NetH) Send(i int, p Pkt) bool {
 	var evs []abci.Event
 	if err == nil {
 		write()
+		rp := p.real()
+		bz, _ := rp.Marshal()
+		callDirect(ci, "send", map[string][]byte{"packet": bz})
 		evs = ctx.EventManager().ABCIEvents()
 	}
 	h.commit(i)
@@ -496,6 +521,7 @@ func (h *NetH) SetRules(i int, rules []string) bool {
 	err := ci.App.TIBCKeeper.RoutingKeeper.SetRoutingRules(ctx, rules)
 	if err == nil {
 		write()
+		callDirect(ci, "setrules", map[string][]byte{"rules": []byte(strings.Join(rules, "\n"))})
 	}
 	h.commit(i)
 	rs := make([]string, len(rules))
